@@ -341,10 +341,16 @@ func (m *StateMachine) handleHeightCommitted(ctx context.Context, rlc *tsi.Round
 	}
 
 	if rlc.S != tsi.StepCommitWait {
-		// It's probably also acceptable to be on tsi.StepAwaitingFinalization?
-		panic(fmt.Errorf(
-			"BUG: expected to be on step commit wait, got %s", rlc.S,
-		))
+		// The network has committed this height,
+		// but we were still voting in a round that never saw the commit
+		// (for instance a later round than the one that was committed).
+		// Abandon the round: the mirror answers the next round entrance
+		// with the committed header for this height, which we then replay.
+		m.log.Info(
+			"Height committed by the network while not in commit wait; abandoning round",
+			"height", rlc.H, "round", rlc.R, "step", rlc.S,
+		)
+		return m.advanceRound(ctx, rlc)
 	}
 
 	if len(rlc.FinalizedValSet.Validators) == 0 {
